@@ -77,6 +77,9 @@ type Exec struct {
 	inputs    []*Term
 	curEffFn  *ssa.Function
 	freshRefs map[int]bool
+	immutable map[string]bool
+	boxEsc    bool // a captured local (box) may have become reachable by other code
+	epoch0    *Epoch
 	topExits  []exitRec // return points of the function under contract (postconditions are checked per return)
 	baseNow   map[int]*Term // heap variable (term id) -> allocation clock when its contents were established
 	amap      *assertMap
@@ -623,6 +626,9 @@ func (x *Exec) execInstr(fr *Frame, st *State, ins ssa.Instruction) {
 		for _, b := range i.Bindings {
 			bs = append(bs, x.val(fr, b))
 		}
+		if len(bs) > 0 && !fr.spec && closureMayWrite(i.Fn.(*ssa.Function)) {
+			x.boxEsc = true // captured variables can now be written by whoever runs the closure
+		}
 		fr.vals[i] = Val{T: i.Type(), L: []*Term{x.freshRef(st, "clo")}, Clo: &ClosureInfo{Fn: i.Fn.(*ssa.Function), Bindings: bs}}
 	case *ssa.Lookup:
 		fr.vals[i] = x.lookup(fr, st, i)
@@ -631,7 +637,15 @@ func (x *Exec) execInstr(fr *Frame, st *State, ins ssa.Instruction) {
 	case *ssa.Range:
 		fr.vals[i] = x.freshVal(i.Type(), "range")
 	case *ssa.Next:
-		fr.vals[i] = x.freshVal(i.Type(), "next")
+		nv := x.freshVal(i.Type(), "next")
+		fr.vals[i] = nv
+		// an iteration over a map yields an element only if the map has one
+		if rg, ok := i.Iter.(*ssa.Range); ok && !i.IsString {
+			if _, isMap := rg.X.Type().Underlying().(*types.Map); isMap && len(nv.L) > 0 && nv.L[0].Sort.Kind == SBool {
+				m := x.val(fr, rg.X)
+				x.assume(st, x.tb.Implies(nv.L[0], x.tb.SLt(x.tb.BVInt(0, 64), x.mapLen(st, m))))
+			}
+		}
 	case *ssa.Select:
 		fr.vals[i] = x.freshVal(i.Type(), "select")
 	case *ssa.Send:
@@ -1258,4 +1272,28 @@ func sortedKeys(m map[string]int) []string {
 	}
 	sort.Strings(ks)
 	return ks
+}
+
+// closureMayWrite: does the closure do anything with a captured variable other than reading it?
+func closureMayWrite(fn *ssa.Function) bool {
+	fvs := map[ssa.Value]bool{}
+	for _, fv := range fn.FreeVars {
+		fvs[fv] = true
+	}
+	for _, b := range fn.Blocks {
+		for _, ins := range b.Instrs {
+			if u, ok := ins.(*ssa.UnOp); ok && u.Op == token.MUL && fvs[u.X] {
+				continue // plain read
+			}
+			if _, ok := ins.(*ssa.DebugRef); ok {
+				continue
+			}
+			for _, op := range ins.Operands(nil) {
+				if op != nil && *op != nil && fvs[*op] {
+					return true
+				}
+			}
+		}
+	}
+	return false
 }
